@@ -72,6 +72,7 @@ func runC04(c *kit.Ctx) {
 
 	// ---- R1 ---------------------------------------------------------------
 	c.StartRule("R1", "classification tables are disjoint and map to distinct classes", 6)
+	exceptionTableOracle(c)
 	var classSet []types.Type
 	{
 		tables := []string{"javaRetryableExceptions", "javaRegionExceptions", "javaServerExceptions"}
@@ -387,6 +388,7 @@ func runC04(c *kit.Ctx) {
 	// a region replacing a moved/split/merged one becomes visible only once it is marked unavailable
 	markBeforePublish(c)
 
+	embed(c, "R7", "every attempt is routed by the current location of the row, with the region of the call it is (the rules of C01, run as one rule here)", 30, runC01)
 	embed(c, "R6", "a failing connection fails every request on it with a connection-level error, so that it is retried elsewhere (the rules of C03, run as one rule here)", 30, runC03)
 
 	// ---- R5 ---------------------------------------------------------------
